@@ -5,7 +5,7 @@
         theorem over the model of the safe API; and a value whose representation borrows from a source can only have been
         derived from the borrow constructor or from a value borrowing the same source (dynamic provenance), which the
         signatures tie to the `'borrow` lifetime (checked by rustc on the corpus). *)
-From Hip Require Import Base Range Utf8 StrRange Bytes BytesSpec BytesInv BytesLib BytesProofs3 BytesProofs BytesCorollaries BytesShape.
+From Hip Require Import Base Range Utf8 StrRange Bytes BytesSpec BytesInv BytesLib BytesProofs3 BytesProofs BytesCorollaries BytesShape BytesProvenance.
 
 (** no safe operation, whatever its arguments (ranges next to usize::MAX, indices out of range, foreign sub-slices,
     dead handles ...), reaches undefined behaviour *)
@@ -23,3 +23,32 @@ Theorem C17_borrowed_view_in_source : forall bk st h hd s off n, Inv bk st -> ge
   s < len (srcs st) /\ off + n <= len (get_src st s).
 Proof. intros bk st h hd s off n I G E. pose proof (views_in_live_memory bk st h hd I G) as H. rewrite E in H. exact H. Qed.
 Print Assumptions C17_borrowed_view_in_source.
+
+(** ** dynamic provenance of borrows ("a value created from a borrow - or anything sliced, split or cloned from it - cannot
+    outlive that borrow unless converted with into_owned"): in the model a value borrows from a source only if it is the
+    result of the borrow constructor, already borrowed from it, or was derived by this very step from a value that did. *)
+Theorem C17_borrow_provenance_step : forall bk ty st o st' u h s,
+  step bk ty st o = (st', u) -> borrows st' h = Some s ->
+     borrows st h = Some s
+  \/ (exists p, subject o = Some p /\ borrows st p = Some s /\ h = len (hs st))
+  \/ (exists x, o = OBorrowed x /\ s = len (srcs st) /\ h = len (hs st)).
+Proof. exact borrow_provenance_step. Qed.
+Print Assumptions C17_borrow_provenance_step.
+
+(** into_owned is the exit: its result borrows from nothing *)
+Theorem C17_into_owned_borrows_nothing : forall bk ty st h st' u,
+  step bk ty st (OIntoOwned h) = (st', u) -> borrows st' h = None.
+Proof. exact into_owned_borrows_nothing. Qed.
+Print Assumptions C17_into_owned_borrows_nothing.
+
+(** over any history: every borrowing value borrows from a source that an OBorrowed of the history created, still intact *)
+Theorem C17_borrow_provenance_run : forall bk ty ops st' us h s,
+  run bk ty init ops = (st', us) -> borrows st' h = Some s ->
+  exists x, In (OBorrowed x) ops /\ s < len (srcs st') /\ get_src st' s = x.
+Proof. exact borrow_provenance_run. Qed.
+Print Assumptions C17_borrow_provenance_run.
+
+Theorem C17_no_borrow_constructor_no_borrow : forall bk ty ops st' us h,
+  run bk ty init ops = (st', us) -> (forall x, ~ In (OBorrowed x) ops) -> borrows st' h = None.
+Proof. exact no_borrow_constructor_no_borrow. Qed.
+Print Assumptions C17_no_borrow_constructor_no_borrow.
